@@ -133,6 +133,20 @@ SEARCH_SOURCES = [
     "void g(out float x, inout int y) { x = 1; y += 1; }\nstruct S { float3 v; int q; };\n"
     "void f(float2x2 m, uint2 u, bool3 c, int3 w, int i) { float2x2 r = m * 2; int3 z = c + 1; float3 q = w * 1.5; r = m + i; "
     "S s; float a; g(a, i); g(s.v.x, s.q); s.q++; --s.v.y; float arr[2]; g(arr[1], i); }\n",
+    # name resolution of emitted paths (seeded mutant C04-3): function templates, overloads, typedefs of qualified types, enums
+    # named like their namespace, constants used before / after a homonymous namespace is declared, locals and parameters
+    # named like namespaces — every program is a fixpoint on the unchanged compiler
+    "namespace Util { template<typename T> T twice(T x) { return x + x; } int base(int x) { return x; } }\n"
+    "namespace App { namespace Util { int halve(int x) { return x / 2; } } int f() { return ::Util::twice<int>(1) + ::Util::twice(2.0f) + Util::halve(2) + ::Util::base(3); } }\n",
+    "namespace A { int k(int a) { return 1; } int k(float a) { return 2; } namespace B { int k(uint a) { return 3; } int g() { return k(1u) + A::k(1) + ::A::k(1.5f); } } }\n",
+    "namespace M { struct V { float x; float len() { return x; } }; typedef V Vec; }\n"
+    "namespace N { typedef ::M::V MV; typedef M::Vec MV2; float f(MV a, MV2 b) { M::Vec c; c.x = a.len() + b.x; return c.x; } }\n",
+    "namespace Color { enum Color { Red, Green, Blue }; int index(Color c) { return c == Green ? 1 : (c == Color::Blue ? 2 : 0); } }\n"
+    "namespace Other { int g() { return Color::index(Color::Color::Red) + Color::index(::Color::Green); } }\nint first() { return Color::index(Color::Color::Red); }\n",
+    "namespace P { static const int n = 4; }\nnamespace Q { int a() { return P::n; } namespace P { static const int m = 5; } int b() { return ::P::n + P::m; } }\n",
+    "namespace W { static int v; int get() { return v; } }\nint user(int W) { int v = W; return v + ::W::v + ::W::get(); }\n",
+    "enum E { A = 2, B = A + 1, C = B };\nnamespace N { cbuffer CB { int cbm; } template<int K> int tv() { return K + cbm; } enum F { P = 1, Q = P << 1 }; }\n"
+    "int useall() { return (int)B + N::tv<3>() + (int)N::Q; }\n",
 ]
 
 
@@ -175,6 +189,9 @@ def _names_class(detail):
 TEMPLATE_LOOKAHEAD_KEY = "rejected-by-parser: less-than ... greater-than followed by `(` is read as template arguments and a call"
 
 
+CBUFFER_LEAF_KEY = "rejected: member of a cbuffer declared in a namespace is printed by its leaf name outside the namespace"
+
+
 def finding_key(req, obs, detail):
     # key by the first differing line class / rejection message, not by the whole program
     import re
@@ -190,6 +207,13 @@ def finding_key(req, obs, detail):
         line = detail.split("failed to parse source", 1)[1]
         if re.search(r"[^<]<(?![<=]).*[^>\-]>(?![>=]) \(", line):
             return TEMPLATE_LOOKAHEAD_KEY
+    m = re.search(r"emitted HLSL is rejected: .*?error: '(\w+)' was not declared in this scope", detail or "")
+    if m and req.startswith("C04.fix\t"):
+        # a member of a cbuffer declared inside a namespace is printed by its leaf name (C15's known finding
+        # `hlsl-cbuffer-member-printed-by-leaf-name`): recognised on the source — the undeclared identifier is such a member
+        src = _source_of(req.split("\t")[1]) or ""
+        if re.search(r"namespace\s+\w+\s*\{[^}]*cbuffer\s+\w+\s*\{[^}]*\b%s\b" % re.escape(m.group(1)), src, re.S):
+            return CBUFFER_LEAF_KEY
     if req.startswith("C04.reelab\t") or req.startswith("C04.accept\t"):
         # the specific input: the source text (ctx / ir are derived from it)
         return "C04.reelab\t" + req.split("\t")[1]
